@@ -118,26 +118,39 @@ Section PassThrough.
   (* ---- idempotence reduced to the attribute filter (C20) ---- *)
   Hypothesis Hplain : plain_policy I p.
   Hypothesis Hnocomments : allowComments p = false.     (* a comment is written with its data escaped again *)
-  Hypothesis attrs_idem : forall n a aps, element_policies I p n = Some aps ->
-    clean_attrs I p n (clean_attrs I p n a aps) aps = clean_attrs I p n a aps.
+  (* the premise, asked only of the tags that occur in the input *)
+  Definition attrs_stable_on (ts : list token) : Prop :=
+    forall n a aps, In (TStart n a) ts \/ In (TSelf n a) ts -> element_policies I p n = Some aps ->
+      clean_attrs I p n (clean_attrs I p n a aps) aps = clean_attrs I p n a aps.
 
-  Lemma emitted_canon ts : Forall canon_item (emitted I p ts).
+  Lemma emitted_canon_on ts : attrs_stable_on ts -> Forall canon_item (emitted I p ts).
   Proof.
-    apply Forall_forall. intros it Hin.
-    destruct (emitted_justified I p (plain_safe M U R I p Hplain) ts it Hin) as (st & t & _ & Hj).
+    intros Hst. apply Forall_forall. intros it Hin.
+    destruct (emitted_justified I p (plain_safe M U R I p Hplain) ts it Hin) as (st & t & Ht & Hj).
     destruct it as [|[d|n a|n|n a|d|d]|d|d|d]; cbn [justified] in Hj; cbn [canon_item]; try contradiction; auto.
-    - destruct Hj as (_ & Hs & a0 & aps & _ & Hp & -> & Hb). split; [exact Hs|]. exists aps. split; [exact Hp|]. split; [apply attrs_idem; exact Hp | exact Hb].
+    - destruct Hj as (_ & Hs & a0 & aps & -> & Hp & -> & Hb). split; [exact Hs|]. exists aps. split; [exact Hp|].
+      split; [apply Hst; [left; exact Ht | exact Hp] | exact Hb].
     - destruct Hj as (_ & _ & Hs & Ha). auto.
-    - destruct Hj as (_ & Hs & a0 & aps & _ & Hp & -> & Hb). split; [exact Hs|]. exists aps. split; [exact Hp|]. split; [apply attrs_idem; exact Hp | exact Hb].
+    - destruct Hj as (_ & Hs & a0 & aps & -> & Hp & -> & Hb). split; [exact Hs|]. exists aps. split; [exact Hp|].
+      split; [apply Hst; [right; exact Ht | exact Hp] | exact Hb].
     - destruct Hj as (_ & Hc & _). congruence.
   Qed.
 
-  Theorem sanitize_idempotent s : sanitize_bytes I p (sanitize_bytes I p s) = sanitize_bytes I p s.
+  Theorem sanitize_idempotent_on s : attrs_stable_on (tokenize s) ->
+    sanitize_bytes I p (sanitize_bytes I p s) = sanitize_bytes I p s.
   Proof.
-    unfold sanitize_bytes at 2. unfold sanitize_tokens. fold (render_items (emitted I p (tokenize s))).
-    apply pass_through; [apply (emitted_items_ok I p Hplain) | apply emitted_canon].
+    intros Hst. unfold sanitize_bytes at 2. unfold sanitize_tokens. fold (render_items (emitted I p (tokenize s))).
+    apply pass_through; [apply (emitted_items_ok I p Hplain) | apply emitted_canon_on; exact Hst].
   Qed.
+
+  Hypothesis attrs_idem : forall n a aps, element_policies I p n = Some aps ->
+    clean_attrs I p n (clean_attrs I p n a aps) aps = clean_attrs I p n a aps.
+
+  Theorem sanitize_idempotent s : sanitize_bytes I p (sanitize_bytes I p s) = sanitize_bytes I p s.
+  Proof. apply sanitize_idempotent_on. intros n a aps _ Hp. apply attrs_idem. exact Hp. Qed.
 End PassThrough.
 Arguments sanitize_idempotent {M U R} I p Hplain Hnocomments attrs_idem s.
+Arguments sanitize_idempotent_on {M U R} I p Hplain Hnocomments s.
+Arguments attrs_stable_on {M U R} I p ts.
 Arguments pass_through {M U R} I p its.
 Arguments canon_item {M U R} I p it.
